@@ -4,7 +4,7 @@ mirrored between decoder/printer and assembler are inverse tables."""
 import ast
 
 from ..core import AnalysisError, where, norm
-from ..consteval import Evaluator, NotConst, module_env
+from ..consteval import Evaluator, NotConst, module_env, Obj, Native
 from ..shapes import u
 from ..srcmodel import walk_no_nested
 from ..x86table import model as x86model
@@ -226,6 +226,16 @@ def run(ctx, report):
     for fence, src in asm_map.items():
         if src not in dis_map:
             R3.violation('x_0f_ae:%s' % fence, 'x_0f_ae:asm-only:%s' % fence, 'assembler maps %s to %s which the decoder never renames' % (fence, src), where(arch, ac))
+    # every name the decoder can put on an instruction through a renamed row copy is a name the assembler finds
+    from .. import stringops as SO
+    row_names = set(r.name for r in X.rows) if hasattr(X, 'rows') else set(c.name for c in X.cells.values())
+    for attr, nm in sorted(SO.renamed_copies(X).items()):
+        inst = 'renamed-copy:%s' % nm
+        if nm in row_names or nm in asm_map:
+            R3.ok(inst, sample='%s: decoder name %s is %s' % (attr, nm, 'a table row' if nm in row_names else 'mapped back by asm_candidates'))
+        else:
+            R3.violation(inst, 'renamed-copy:%s' % nm, 'the decoder renames an instruction to %r (x86mndb.%s), a name no table row carries and asm_candidates does not map back: '
+                         'its rendering does not assemble' % (nm, attr), where(arch, so), witness="dis(66 9c) is 'pushfw'; asm('pushfw') == []")
     # movlps/movhps register forms
     strm = arch.method('x86_mn', '__str__')
     st_txt, ac_txt = u(strm), u(ac)
@@ -403,8 +413,116 @@ def run(ctx, report):
     from .c02 import range_rule
     range_rule(ctx, R6)
 
+    # ---------------------------------------------------------------- D8 x87 register rows accept the size the parser gives st(i)
+    R8 = report.rule('C03.D8', 'x87 st(i) rows: the operand size the parser gives st(i) passes the size check of the row (check_size_modif); implicit-operand lists agree with the rows\' operand counts', floor=40)
+    csm = arch.method('x86allmncs', 'check_size_modif')
+    st_size = pregs.get('st0') or pregs.get('st')
+    if st_size is None:
+        raise AnalysisError('parse_ad.registers has no st0/st entry')
+    lg_ = Obj('log')
+    lg_.debug = Native(lambda *a: None)
+    done = set()
+    for path, c in sorted(X.cells.items()):
+        if c.row.afs != E['reg'] or not (0xD8 <= c.opc[0] <= 0xDF) or c.row.idx in done:
+            continue
+        done.add(c.row.idx)
+        ev8 = Evaluator(dict((k, v) for k, v in E.items() if isinstance(v, (str, int, bool, list, tuple, dict)) or v is None))
+        ev8.env.update({'x86_afs': afs, 'log': lg_})
+        md = dict((E[k], None) for k in ('w8', 'se', 'sw', 'ww', 'sg', 'dr', 'cr', 'ft', 'w64', 'sd', 'wd', 'bkf', 'spf', 'dtf', 'mmx') if k in E)
+        md.update(c.modifs)
+        try:
+            ok_ = ev8.call_user(csm, [Obj('x86mndb'), st_size, md])
+        except NotConst as e:
+            raise AnalysisError('check_size_modif is outside the evaluable subset: %s' % e)
+        inst = 'x87-reg-row:%s' % c.row.key()
+        if ok_:
+            R8.ok(inst, sample='%s: st(i) (%s) passes check_size_modif' % (c.row.key(), st_size))
+        else:
+            R8.violation(inst, 'x87-reg-size:%s:%s' % (c.name, ' '.join('%02X' % b for b in c.row.opc)), 'row %s decodes `%s st(i)`, but the size the operand parser gives st(i) (%s) fails '
+                         'check_size_modif for the row (sd = %r): the rendering has no candidate' % (c.row.key(), c.name, st_size, c.modifs.get(E['sd'])), where(arch, c.row.node),
+                         witness="asm('fcom st(1)') == [] although dis(d8 d1) renders 'fcom st(1)'")
+
+    # operand counts: after normalize_args the implicit-operand lists leave 2 (float_arith), 1 (float_arith_p, float_st_st1, float_st_mnemo) operands;
+    # the st(i) row of every listed name must take exactly that many
+    want_n = {'float_arith': 2, 'float_arith_p': 1, 'float_st_st1': 1, 'float_st_mnemo': 1}
+    done = set()
+    for path, c in sorted(X.cells.items()):
+        if c.row.afs != E['reg'] or not (0xD8 <= c.opc[0] <= 0xDF) or c.row.idx in done:
+            continue
+        done.add(c.row.idx)
+        n_ops = 1 + len([d for d in c.row.rm if d != E['rmr']])
+        for lst, n_want in sorted(want_n.items()):
+            if c.name in E.get(lst, ()):
+                inst = 'x87-reg-count:%s:%s' % (lst, c.row.key())
+                if n_ops == n_want:
+                    R8.ok(inst, sample='%s in %s: %d operand(s)' % (c.row.key(), lst, n_ops))
+                else:
+                    R8.violation(inst, 'x87-reg-count:%s:%s' % (lst, c.name), '%s is in %s, so normalize_args hands the assembler %d operand(s) for `%s st(i)`, but the row %s takes %d: '
+                                 'no candidate' % (c.name, lst, n_want, c.name, c.row.key(), n_ops), where(arch, c.row.node), witness="asm('fcom st(1)') == []")
+
+    # ---------------------------------------------------------------- D7 mnemonic lists the decoder rejects / sizes operands by are enforced by the assembler
+    R7 = report.rule('C03.D7', 'every module-level mnemonic list by which _dis rejects an operand form or fixes an operand size is consulted by the assembler', floor=2)
+    dis_ = arch.method('x86_mn', '_dis')
+    mod_lists = set()
+    for st in arch.tree.body:
+        if isinstance(st, ast.Assign) and len(st.targets) == 1 and isinstance(st.targets[0], ast.Name) and isinstance(st.value, ast.List) \
+                and st.value.elts and all(isinstance(e_, ast.Constant) and isinstance(e_.value, str) for e_ in st.value.elts):
+            mod_lists.add(st.targets[0].id)
+    size_nodes = set(id(x) for blk_ in X._size_nodes() for st in blk_ for x in ast.walk(st))
+    used = {}
+    for n in walk_no_nested(dis_):
+        if not isinstance(n, ast.If):
+            continue
+        rejects = any(isinstance(x, ast.Return) and (x.value is None or u(x.value) == 'None') for x in n.body)
+        sizes = id(n) in size_nodes and any(isinstance(x, ast.Assign) and 'x86_afs.size' in u(x.targets[0]) for x in n.body)
+        if not (rejects or sizes):
+            continue
+        for cmp_ in ast.walk(n.test):
+            if isinstance(cmp_, ast.Compare) and u(cmp_.left) == 'm.name' and isinstance(cmp_.ops[0], ast.In) and isinstance(cmp_.comparators[0], ast.Name) \
+                    and cmp_.comparators[0].id in mod_lists:
+                used.setdefault(cmp_.comparators[0].id, []).append(('rejects' if rejects else 'sizes', n))
+    if not used:
+        raise AnalysisError('_dis no longer rejects or sizes operands by a module-level mnemonic list (mnemo_mem_only expected)')
+    asm_side = [ac, arch.method('x86_mn', 'normalize_args'), arch.method('x86_mn', 'parse_mnemo')]
+    asm_names = set(n.id for f_ in asm_side if f_ is not None for n in ast.walk(f_) if isinstance(n, ast.Name))
+    # the /digit and the reg,r/m branches of both sides: a rejection in one branch of the decoder is mirrored in the same branch of the assembler
+    def digit_if(fn):
+        for n in walk_no_nested(fn):
+            if isinstance(n, ast.If) and u(n.test).replace(' ', '') == 'afsin[d0,d1,d2,d3,d4,d5,d6,d7]':
+                return n
+        raise AnalysisError('%s: the /digit branch was not found' % fn.name)
+    d_dis, d_asm = digit_if(dis_), digit_if(ac)
+    dis_digit_ids = set(id(x) for st in d_dis.body for x in ast.walk(st))
+    asm_digit_names = set(n.id for st in d_asm.body for n in ast.walk(st) if isinstance(n, ast.Name))
+    asm_rest_names = set(n.id for st in d_asm.orelse for n in ast.walk(st) if isinstance(n, ast.Name))
+    for lst, sites in sorted(used.items()):
+        kinds = sorted(set(k for k, _ in sites))
+        inst = 'list %s (%s)' % (lst, '/'.join(kinds))
+        missing_branch = None
+        for k, n in sites:
+            if k == 'rejects':
+                in_digit = id(n) in dis_digit_ids
+                if lst not in (asm_digit_names if in_digit else asm_rest_names):
+                    missing_branch = ('/digit' if in_digit else 'reg,r/m', n)
+        if lst in asm_names and missing_branch is None:
+            R7.ok(inst, sample='%s: decoder %s, assembler consults it' % (lst, ' and '.join(kinds)))
+        elif lst in asm_names:
+            R7.violation(inst, 'asm-ignores:%s:%s' % (lst, missing_branch[0]), 'the %s branch of _dis rejects operand forms by membership in %s; the %s branch of asm_candidates does not '
+                         'consult it and offers the encodings the decoder rejects' % (missing_branch[0], lst, missing_branch[0]), where(arch, missing_branch[1]))
+        else:
+            R7.violation(inst, 'asm-ignores:%s' % lst, 'the decoder %s by membership in %s, which the assembler never consults: it returns candidates the decoder rejects or '
+                         'renders differently' % (' and '.join('rejects operand forms' if k == 'rejects' else 'fixes an operand size' for k in kinds), lst),
+                         where(arch, sites[0][1]), witness="asm('lgdt eax') == ['0f01d0'], which dis() rejects" if lst == 'mnemo_mem_only' else None)
+
+
 
 MUTANTS = [
+    ('fcom-in-float-arith', 'miasmx/arch/ia32_arch.py', "float_arith =    ['fadd','fsub','fmul','fdiv','fsubr','fdivr']", "float_arith =    ['fadd','fsub','fmul','fdiv','fsubr','fdivr','fcom']", 'C03.D8'),
+    ('fcom-reg-sd-false', 'miasmx/arch/ia32_arch.py', 'addop("fcom",  [0xD8, 0xD0],       reg,   no_rm         , {}                 ,{sd:True} ', 'addop("fcom",  [0xD8, 0xD0],       reg,   no_rm         , {}                 ,{sd:False}', 'C03.D8'),
+    ('pushfw-no-row', 'miasmx/arch/ia32_arch.py', '        addop("pushfw",[0x66, 0x9C],       noafs, no_rm         , {}                 ,{}                , {},                         )\n', '', 'C03.D3'),
+    ('asm-memonly-digit', 'miasmx/arch/ia32_arch.py', "                if c.name in mnemo_mem_only and a[x86_afs.ad] == False:\n                    # memory operand only (the decoder rejects mod == 3)\n                    continue\n", "", 'C03.D7'),
+    ('asm-memonly-rmr', 'miasmx/arch/ia32_arch.py', "                if c.name in mnemo_mem_only and \\\n                        [a2, a1][not swap_args][x86_afs.ad] == False:\n                    # memory operand only (the decoder rejects mod == 3)\n                    continue\n", "", 'C03.D7'),
+    ('asm-mem16-ignored', 'miasmx/arch/ia32_arch.py', "            if name in mnemo_mem16 or [a for a in args_eval", "            if [a for a in args_eval", 'C03.D7'),
     ('string-elide-always', 'miasmx/arch/ia32_arch.py', "        if len(args) == 2 and self.m.name in rep_mov_cmp and x86_afs.segm in args[0] \\\n                and args[1].get(x86_afs.segm) == default_ds:\n            args[0:2] = []", "        if len(args) == 2 and self.m.name in rep_mov_cmp and x86_afs.segm in args[0]:\n            args[0:2] = []", 'C03.D5'),
     ('string-override-dropped', 'miasmx/arch/ia32_arch.py', "            string_keep_override(args, prefix)\n            args[0:2] = []\n        # \"lea\"", "            args[0:2] = []\n        # \"lea\"", 'C03.D5'),
     ('segm-single-skip', 'miasmx/arch/ia32_arch.py', "            if x86_afs.segm in a:\n                #print a\n", "            if x86_afs.segm in a:\n                if len(args_eval) == 1 and not name in ['push', 'pop']:\n                    continue\n", 'C03.D3'),
